@@ -61,6 +61,10 @@ def gen_broker_case(rng, stream='valid', n_ops=None, exact=False, fee=None, npf=
     start = MON + rng.choice([0, OPEN, 3 * 3600]) + DAY * rng.randint(0, 6)
     t = start
     price = {a: dy(rng, 5, 300, 8) for a in assets}
+    # penny assets: considerations that round to zero whole currency units
+    penny = set(a for a in assets if rng.random() < 0.12)
+    for a in penny:
+        price[a] = rng.choice([0.125, 0.25, 0.375]) if exact else rng.choice([0.0045, 0.04, 0.32, 0.3, 0.125, 0.49])
     quotes, ops = [], []
     quoted = set()
     master = Fraction(funds)
@@ -76,7 +80,9 @@ def gen_broker_case(rng, stream='valid', n_ops=None, exact=False, fee=None, npf=
             if a == missing:
                 continue
             # random walk, strictly positive, bid != ask
-            if exact:
+            if a in penny:
+                spread = 0.125 if exact else price[a] * rng.choice([0.05, 0.0625])
+            elif exact:
                 price[a] = max(0.5, price[a] + rng.randint(-16, 16) / 8)
                 spread = rng.choice([0.125, 0.25, 0.5])
             else:
@@ -93,7 +99,17 @@ def gen_broker_case(rng, stream='valid', n_ops=None, exact=False, fee=None, npf=
         if bad:
             k = rng.choice(['negsub', 'negwd', 'overwd', 'negsubpf', 'negwdpf', 'oversubpf', 'overwdpf',
                             'unkpf_sub', 'unkpf_wd', 'unkpf_submit', 'dupcreate', 'badcur', 'unk_get',
-                            'backupdate', 'noquote'])
+                            'backupdate', 'noquote', 'nearwd', 'nearsubpf', 'nearwdpf'])
+            # a request just above the balance (relative 1e-9 .. 5e-6, or a quarter unit): still to be refused
+            near = lambda bal: (float(bal) + 0.25) if (exact or rng.random() < 0.3) else float(bal) * (1 + rng.choice([1e-9, 1e-7, 1e-6, 5e-6]))
+            if k == 'nearwd' and master > 0:
+                ops.append(['wdacct', near(master)])
+            elif k == 'nearsubpf' and created and master > 0:
+                ops.append(['subpf', rng.choice(created), near(master)])
+            elif k == 'nearwdpf' and created:
+                p = rng.choice(created)
+                if pfcash[p] is not None and pfcash[p] > 0:
+                    ops.append(['wdpf', p, near(pfcash[p])])
             if k == 'negsub':
                 ops.append(['subacct', -amt(0.25, 1000)])
             elif k == 'negwd':
@@ -322,6 +338,7 @@ def compare_broker(case, impl, mod, fields, j):
         return
     msteps = mod[1]
     prev_m = None
+    sticky_fill_amts = {}
     for n, (ms, st) in enumerate(zip(msteps, impl['steps'])):
         op = case['ops'][n]
         w = 'step %d %s' % (n, op)
@@ -397,9 +414,11 @@ def compare_broker(case, impl, mod, fields, j):
             amts = [mpf[1]]
             if op[0] in ('subpf', 'wdpf'):
                 amts.append(Fraction(op[2]))
-            for e in meff:
-                if e[0] == 'fill':
-                    amts.append(e[2][1] * e[2][3] + e[2][4])
+            here = [e[2][1] * e[2][3] + e[2][4] for e in meff if e[0] == 'fill' and e[1] == pid]
+            if here:
+                sticky_fill_amts[pid] = here
+            # the last history event is compared again at every later step: keep the unrounded amounts of this portfolio's most recent fills
+            amts.extend(sticky_fill_amts.get(pid, []))
             if len(pub) == 2:
                 out.append('%s: getters raised %s' % (ww, pub[1]))
                 continue
